@@ -127,12 +127,18 @@ package gtree
 //@   requires validating [C09,C07]: g != nil ==> g.enabledValidation
 //@   carries errc: errChan
 //@   carries result0: errChan
-//@   modifies out, wfail, counter.n
+//@   modifies out, wfail, counter.n, spText
+//@   after make: spText := ""
+// (functional clause, per goroutine: what this goroutine hands to the writer is, root by root, the dry-run report
+// specDryRoot of the roots it received - counters reset per root; spText accumulates what is owed, as on the simple route)
 //@ closure gtree.colorizeSpreaderPipeline.spread#1
 //@   requires nn: cs != nil && cs.colorizeSpreaderSimple != nil && colorizeOK(cs.colorizeSpreaderSimple) && ctx != nil
-//@   modifies out, wfail, counter.n
+//@   requires start: spText == ""
+//@   modifies out, wfail, counter.n, spText
+//@   after spreadBranch: spText := spText ++ specDryRoot(cs.colorizeSpreaderSimple.fileColor, cs.colorizeSpreaderSimple.dirColor, cs.colorizeSpreaderSimple.fileConsiderer.extensions, root)
 //@ loop gtree.colorizeSpreaderPipeline.spread#1#1
-//@   invariant ok: colorizeOK(cs.colorizeSpreaderSimple) && bw != nil
+//@   invariant ok: colorizeOK(cs.colorizeSpreaderSimple) && bw != nil && bw.under == w
+//@   invariant sofar [C09]: out[w] ++ bw.pending == old(out[w]) ++ spText && wfail == old(wfail)
 
 // encoded output: one encoder per run (C04), Encode once per root received
 //@ contract formattedSpreadPipelineSpec
@@ -216,7 +222,7 @@ package gtree
 
 // ---- the tree (pipeline_tree.go)
 // pipelineTreeOK(t, cfg): t is the treePipeline that newTreePipeline builds for cfg.
-//@ pred pipelineTreeOK(t *treePipeline, cfg *config): t != nil && cfg != nil && cfg.ctx != nil && t.grower != nil && t.spreader != nil && t.mkdirer != nil && t.verifier != nil && t.walker != nil && (cfg.encode != encodeDefault ==> isType(t.grower, nopGrowerPipeline)) && (cfg.encode == encodeDefault ==> isType(t.grower, defaultGrowerPipeline) && as(t.grower, defaultGrowerPipeline).defaultGrowerSimple != nil && as(t.grower, defaultGrowerPipeline).defaultGrowerSimple.lastNodeFormat == cfg.lastNodeFormat && as(t.grower, defaultGrowerPipeline).defaultGrowerSimple.intermedialNodeFormat == cfg.intermedialNodeFormat && (cfg.dryrun ==> as(t.grower, defaultGrowerPipeline).defaultGrowerSimple.enabledValidation)) && (cfg.dryrun ==> isType(t.spreader, colorizeSpreaderPipeline) && as(t.spreader, colorizeSpreaderPipeline).colorizeSpreaderSimple != nil && colorizeOK(as(t.spreader, colorizeSpreaderPipeline).colorizeSpreaderSimple)) && (!cfg.dryrun && !(cfg.encode >= encodeJSON && cfg.encode <= encodeTOML) ==> isType(t.spreader, defaultSpreaderPipeline) && as(t.spreader, defaultSpreaderPipeline).defaultSpreaderSimple != nil) && (!cfg.dryrun && cfg.encode >= encodeJSON && cfg.encode <= encodeTOML ==> isType(t.spreader, formattedSpreaderPipeline)) && isType(t.mkdirer, defaultMkdirerPipeline) && as(t.mkdirer, defaultMkdirerPipeline).defaultMkdirerSimple != nil && as(t.mkdirer, defaultMkdirerPipeline).defaultMkdirerSimple.fileConsiderer != nil && isType(t.verifier, defaultVerifierPipeline) && as(t.verifier, defaultVerifierPipeline).defaultVerifierSimple != nil && isType(t.walker, defaultWalkerPipeline)
+//@ pred pipelineTreeOK(t *treePipeline, cfg *config): t != nil && cfg != nil && cfg.ctx != nil && t.grower != nil && t.spreader != nil && t.mkdirer != nil && t.verifier != nil && t.walker != nil && (cfg.encode != encodeDefault ==> isType(t.grower, nopGrowerPipeline)) && (cfg.encode == encodeDefault ==> isType(t.grower, defaultGrowerPipeline) && as(t.grower, defaultGrowerPipeline).defaultGrowerSimple != nil && as(t.grower, defaultGrowerPipeline).defaultGrowerSimple.lastNodeFormat == cfg.lastNodeFormat && as(t.grower, defaultGrowerPipeline).defaultGrowerSimple.intermedialNodeFormat == cfg.intermedialNodeFormat && (cfg.dryrun ==> as(t.grower, defaultGrowerPipeline).defaultGrowerSimple.enabledValidation)) && (cfg.dryrun ==> isType(t.spreader, colorizeSpreaderPipeline) && as(t.spreader, colorizeSpreaderPipeline).colorizeSpreaderSimple != nil && colorizeOK(as(t.spreader, colorizeSpreaderPipeline).colorizeSpreaderSimple) && as(t.spreader, colorizeSpreaderPipeline).colorizeSpreaderSimple.fileConsiderer.extensions == cfg.fileExtensions) && (!cfg.dryrun && !(cfg.encode >= encodeJSON && cfg.encode <= encodeTOML) ==> isType(t.spreader, defaultSpreaderPipeline) && as(t.spreader, defaultSpreaderPipeline).defaultSpreaderSimple != nil) && (!cfg.dryrun && cfg.encode >= encodeJSON && cfg.encode <= encodeTOML ==> isType(t.spreader, formattedSpreaderPipeline)) && isType(t.mkdirer, defaultMkdirerPipeline) && as(t.mkdirer, defaultMkdirerPipeline).defaultMkdirerSimple != nil && as(t.mkdirer, defaultMkdirerPipeline).defaultMkdirerSimple.fileConsiderer != nil && as(t.mkdirer, defaultMkdirerPipeline).defaultMkdirerSimple.fileConsiderer.extensions == cfg.fileExtensions && as(t.mkdirer, defaultMkdirerPipeline).defaultMkdirerSimple.targetDir == (len(cfg.targetDir) != 0 ? cfg.targetDir : ".") && isType(t.verifier, defaultVerifierPipeline) && as(t.verifier, defaultVerifierPipeline).defaultVerifierSimple != nil && as(t.verifier, defaultVerifierPipeline).defaultVerifierSimple.strict == cfg.strictVerify && as(t.verifier, defaultVerifierPipeline).defaultVerifierSimple.targetDir == (len(cfg.targetDir) != 0 ? cfg.targetDir : ".") && isType(t.walker, defaultWalkerPipeline)
 
 //@ func gtree.newTreePipeline
 //@   requires nn: cfg != nil && cfg.ctx != nil
